@@ -28,6 +28,7 @@ from core.regex_lang import Regex, cross_validate
 from core.report import Result
 
 from . import c06_absint as A
+from . import c06_state as S
 
 PARSER_CLASS = "pytestarch.diagram_extension.diagram_parser.PumlParser"
 RESULT_CLASS = "pytestarch.diagram_extension.parsed_dependencies.ParsedDependencies"
@@ -302,6 +303,16 @@ def pick(caps: dict, groups: list[str]):
     return ("ambiguous", tuple(sorted(vals)))
 
 
+def check_history(repo: Repo, res: Result, parser: ClassInfo) -> None:
+    try:
+        S.check(repo, res, parser, "C06.R6")
+    except AnalysisError:
+        raise
+    except (RecursionError, AssertionError, AttributeError, KeyError, TypeError, ValueError, IndexError) as exc:
+        fi = repo.lookup_method(parser, "parse")
+        res.undecide("C06.R6", f"{fi.relpath}::{fi.qualname}", f"the walk over the call tree of parse() failed ({type(exc).__name__}: {exc})", f"{fi.relpath}:{fi.node.lineno}")
+
+
 # ------------------------------------------------------------------------------------------------------------------- run
 def run(repo: Repo) -> Result:
     res = Result("C06")
@@ -323,6 +334,8 @@ def run(repo: Repo) -> Result:
     parser = find_class(repo, PARSER_CLASS)
     result_cls = find_class(repo, RESULT_CLASS)
     error_cls = find_class(repo, ERROR_CLASS)
+    # ---- R6 parse is history-free (independent of the abstract run below)
+    check_history(repo, res, parser)
     interp, ret, completed = interpret(repo, parser, None)
     parse_fi = repo.lookup_method(parser, "parse")
     parse_key = f"{parse_fi.relpath}::{parse_fi.qualname}"
